@@ -1,27 +1,23 @@
 /-
-  drxmodel: line-protocol driver for the executable models.
+  Generic line-protocol loop shared by the per-family drivers.
   One case per line on stdin:  <family> <cmd> <args...>   (space separated; byte strings in hex, "-" = empty)
   One line per case on stdout: the canonical observable (JSON), or "bad-op" for a line the driver cannot read.
 -/
-import Drx.Drv.Riff
+namespace Drx.Drv
 
-open Drx
-
-def dispatch : String → List String → Option String
-  | "riff", args => Drx.Drv.Riff.run args
-  | _, _ => none
-
-partial def loop (h : IO.FS.Stream) (out : IO.FS.Stream) : IO Unit := do
+partial def loop (run : List String → Option String) (h : IO.FS.Stream) (out : IO.FS.Stream) : IO Unit := do
   let line ← h.getLine
   if line.isEmpty then return ()
   let toks := (line.trimAscii.toString.splitOn " ").filter (· ≠ "")
   let res := match toks with
-    | fam :: args => (dispatch fam args).getD "bad-op"
+    | _fam :: args => (run args).getD "bad-op"
     | [] => "bad-op"
   out.putStrLn res
-  loop h out
+  loop run h out
 
-def main : IO Unit := do
+def mainLoop (run : List String → Option String) : IO Unit := do
   let stdin ← IO.getStdin
   let stdout ← IO.getStdout
-  loop stdin stdout
+  loop run stdin stdout
+
+end Drx.Drv
